@@ -19,6 +19,8 @@
 (*                                                  Grid.get_kd_tree       *)
 (*   SetCoordinates(handle, kind)   the `coordinates` setter on a handle   *)
 (*   Query(handle)                  observation only                       *)
+(*   RemapUse(kind, coord)          a remap call whose data live on `kind`: *)
+(*                                  it rebuilds the ball-tree slot          *)
 (*                                                                         *)
 (* The mechanism is data (constant Mech):                                  *)
 (*   cmp    which of {"system", "metric"} are compared with the request    *)
@@ -58,7 +60,8 @@ CONSTANTS Kinds,       \* element kinds
           Mech,        \* mechanism record, see above
           MaxLen,      \* history length bound (generation)
           Record,      \* BOOLEAN: keep history in the state
-          WithSet      \* BOOLEAN: include SetCoordinates actions
+          WithSet,     \* BOOLEAN: include SetCoordinates actions
+          WithRemap    \* BOOLEAN: include remap calls (they use the grid's ball-tree slot internally)
 
 VARIABLES objs,      \* Seq of wrapper records
           ref,       \* [ball |-> handle or 0, kd |-> handle or 0]
@@ -148,6 +151,24 @@ SetCoordinates(h, kind) ==
     /\ last' = [ op |-> "set", h |-> h, want |-> want ]
     /\ hist' = Log(<<"set", h, kind>>, h, os)
 
+\* A remap call from this grid (remap/utils.py): get_ball_tree(coordinates = kind of the data,
+\* spherical/haversine or cartesian/minkowski, reconstruct = TRUE).  The new wrapper replaces the
+\* cached one; it is not handed to the caller (no promise), but later requests may be given it.
+RemapUse(kind, coord) ==
+    LET sys == coord
+        met == IF coord = "spherical" THEN "haversine" ELSE "minkowski"
+        os  == Append(objs, NewWrapper("ball", kind, sys, met, TRUE))
+    IN
+    /\ WithRemap
+    /\ "ball" \in Trees
+    /\ n < MaxLen
+    /\ n' = n + 1
+    /\ objs' = os
+    /\ ref' = [ ref EXCEPT !["ball"] = Len(os) ]
+    /\ promises' = promises
+    /\ last' = [ op |-> "remap", h |-> 0, want |-> << kind, sys, met >> ]
+    /\ hist' = Log(<<"remap", kind, coord>>, 0, os)
+
 \* handles the caller holds (only these can be assigned to)
 Handles == { promises[i].h : i \in 1..Len(promises) }
 
@@ -161,6 +182,7 @@ Init == /\ objs = <<>>
 Next == \/ \E t \in Trees : \E kind \in Kinds : \E c \in Combos(t) : \E rec \in Recs :
               Get(t, kind, c[1], c[2], rec)
         \/ \E h \in Handles : \E kind \in Kinds : SetCoordinates(h, kind)
+        \/ \E kind \in Kinds : \E coord \in {"spherical", "cartesian"} : RemapUse(kind, coord)
 
 Spec == Init /\ [][Next]_vars
 
@@ -168,7 +190,7 @@ Spec == Init /\ [][Next]_vars
 TypeOK == /\ \A i \in 1..Len(objs) : objs[i].coords \in Kinds /\ objs[i].slots[objs[i].coords] # <<None, None>>
           /\ \A t \in {"ball", "kd"} : ref[t] \in 0..Len(objs) /\ (ref[t] > 0 => objs[ref[t]].tree = t)
 
-HandBack == last.op # "init" =>
+HandBack == last.op \in {"get", "set"} =>
               /\ Effective(objs[last.h]) = last.want
               /\ Attr(objs[last.h]) = last.want
 
